@@ -1,15 +1,28 @@
 //! C15: the boxed constructors build arrays far larger than the thread's stack.
 //! Each construction runs on a thread with a 256 KiB stack; a stack overflow kills the process
 //! (the runner records that as an `exit` event, which the specification does not accept).
+//! Every constructor is run over every SHAPE: many small elements, and few elements of 16 KiB each
+//! (256, 64 and 32 of them: a fast path chosen by element COUNT must still not build on the stack).
 use crate::ev;
+use generic_array::functional::FunctionalSequence;
 use generic_array::sequence::GenericSequence;
-use generic_array::typenum::{U1048576, U524288};
-use generic_array::{box_arr, GenericArray};
+use generic_array::typenum::{U1048576, U256, U32, U64};
+use generic_array::{box_arr, ArrayLength, GenericArray};
 use serde_json::Value as J;
 
-type N8 = U1048576; // x u64 = 8 MiB
-type N4 = U524288; // x u64 = 4 MiB
-
+trait BigElem: Clone + Default + Send + 'static {
+    fn of(v: u64) -> Self;
+    fn probe(&self) -> u64;
+}
+impl BigElem for u64 {
+    fn of(v: u64) -> u64 {
+        v
+    }
+    fn probe(&self) -> u64 {
+        *self
+    }
+}
+/// 16 KiB
 #[derive(Clone)]
 struct Big16k([u64; 2048]);
 impl Default for Big16k {
@@ -17,94 +30,62 @@ impl Default for Big16k {
         Big16k([0; 2048])
     }
 }
-
-#[derive(Clone)]
-struct Big512k([u64; 65536]);
-impl Default for Big512k {
-    fn default() -> Self {
-        Big512k([0; 65536])
+impl BigElem for Big16k {
+    fn of(v: u64) -> Self {
+        Big16k([v; 2048])
+    }
+    fn probe(&self) -> u64 {
+        self.0[2047]
     }
 }
 
-fn summarize(op: &str, s: &[u64], bytes: usize) {
+fn summarize<E: BigElem>(op: &str, shape: &str, s: &[E], bytes: usize) {
     let n = s.len();
-    let first = s.first().copied().unwrap_or(0);
-    let last = s.last().copied().unwrap_or(0);
-    let mid = s.get(n / 2).copied().unwrap_or(0);
-    let sum: u64 = s.iter().fold(0u64, |a, x| a.wrapping_add(*x)) % 1_000_003;
-    ev!("\"ev\":\"big\",\"op\":\"{}\",\"n\":{},\"bytes\":{},\"first\":{},\"mid\":{},\"last\":{},\"sum\":{}", op, n, bytes, first, mid, last, sum);
+    let first = s.first().map(|e| e.probe()).unwrap_or(0);
+    let last = s.last().map(|e| e.probe()).unwrap_or(0);
+    let mid = s.get(n / 2).map(|e| e.probe()).unwrap_or(0);
+    let sum: u64 = s.iter().fold(0u64, |a, x| a.wrapping_add(x.probe())) % 1_000_003;
+    ev!("\"ev\":\"big\",\"op\":\"{}\",\"shape\":\"{}\",\"n\":{},\"bytes\":{},\"first\":{},\"mid\":{},\"last\":{},\"sum\":{}", op, shape, n, bytes, first, mid, last, sum);
 }
 
-fn build(op: String) {
-    match op.as_str() {
-        "default_boxed" => {
-            let b = GenericArray::<u64, N8>::default_boxed();
-            summarize(&op, b.as_slice(), std::mem::size_of_val(&*b));
-        }
-        "generate" => {
-            let b = Box::<GenericArray<u64, N8>>::generate(|i| (i % 1000) as u64);
-            summarize(&op, b.as_slice(), std::mem::size_of_val(&*b));
-        }
-        "box_arr_repeat" => {
-            let b: Box<GenericArray<u64, N4>> = box_arr![7u64; N4];
-            summarize(&op, b.as_slice(), std::mem::size_of_val(&*b));
-        }
-        "boxed_from_iter" => {
-            let b: Box<GenericArray<u64, N8>> = (0..1048576u64).map(|i| i % 1000).collect();
-            summarize(&op, b.as_slice(), std::mem::size_of_val(&*b));
-        }
-        "try_boxed_from_iter" => {
-            let b = GenericArray::<u64, N4>::try_boxed_from_iter((0..524288u64).map(|i| i % 1000)).unwrap();
-            summarize(&op, b.as_slice(), std::mem::size_of_val(&*b));
+fn build<E: BigElem, N: ArrayLength>(op: &str, shape: &str) {
+    let n = N::USIZE as u64;
+    let b: Box<GenericArray<E, N>> = match op {
+        "default_boxed" => GenericArray::<E, N>::default_boxed(),
+        "generate" => Box::<GenericArray<E, N>>::generate(|i| E::of((i % 1000) as u64)),
+        "box_arr_repeat" => box_arr![E::of(7); N],
+        "boxed_from_iter" => (0..n).map(|i| E::of(i % 1000)).collect(),
+        "try_boxed_from_iter" => GenericArray::<E, N>::try_boxed_from_iter((0..n).map(|i| E::of(i % 1000))).unwrap(),
+        "try_from_vec" => {
+            let v: Vec<E> = (0..n).map(|i| E::of(i % 1000)).collect();
+            GenericArray::<E, N>::try_from_vec(v).unwrap()
         }
         "boxed_map" => {
-            let b = GenericArray::<u64, N4>::default_boxed();
-            use generic_array::functional::FunctionalSequence;
-            let c: Box<GenericArray<u64, N4>> = b.map(|x| x + 3);
-            summarize(&op, c.as_slice(), std::mem::size_of_val(&*c));
+            let b = GenericArray::<E, N>::default_boxed();
+            b.map(|x| E::of(x.probe() + 3))
         }
-        "boxed_clone_into_vec" => {
-            let b = Box::<GenericArray<u64, N4>>::generate(|i| (i % 1000) as u64);
-            let v = b.clone().into_vec();
-            summarize(&op, &v, v.len() * 8);
-        }
-        // few, very large elements: 256 x 16 KiB = 4 MiB
-        "generate_bigelem" => {
-            let b = Box::<GenericArray<[u64; 2048], generic_array::typenum::U256>>::generate(|i| [(i % 1000) as u64; 2048]);
-            let flat: Vec<u64> = b.iter().map(|e| e[2047]).collect();
-            summarize(&op, &flat, std::mem::size_of_val(&*b));
-        }
-        "default_boxed_bigelem" => {
-            let b = GenericArray::<[u64; 32], generic_array::typenum::U192>::default_boxed();
-            let b2 = GenericArray::<Big16k, generic_array::typenum::U192>::default_boxed();
-            let flat: Vec<u64> = b.iter().map(|e| e[31]).chain(b2.iter().map(|e| e.0[2047])).collect();
-            summarize(&op, &flat, std::mem::size_of_val(&*b) + std::mem::size_of_val(&*b2));
-        }
-        // N <= 32 with elements so large that even a handful exceeds the stack
-        "default_boxed_32x16k" => {
-            let b = GenericArray::<Big16k, generic_array::typenum::U32>::default_boxed();
-            let flat: Vec<u64> = b.iter().map(|e| e.0[2047]).collect();
-            summarize(&op, &flat, std::mem::size_of_val(&*b));
-        }
-        "generate_8x128k" => {
-            let b = Box::<GenericArray<[u64; 16384], generic_array::typenum::U8>>::generate(|i| [(i % 1000) as u64; 16384]);
-            let flat: Vec<u64> = b.iter().map(|e| e[16383]).collect();
-            summarize(&op, &flat, std::mem::size_of_val(&*b));
-        }
-        "default_boxed_1x512k" => {
-            let b = GenericArray::<Big512k, generic_array::typenum::U1>::default_boxed();
-            let flat: Vec<u64> = b.iter().map(|e| e.0[65535]).collect();
-            summarize(&op, &flat, std::mem::size_of_val(&*b));
-        }
+        // (zip of boxes goes through four by-value iterator adaptors: with 16 KiB elements their frames alone
+        //  exceed this stack in a debug build, whatever N is; zip is not among the constructors the property names)
         _ => panic!("HARNESS: big op {}", op),
-    }
+    };
+    summarize(op, shape, b.as_slice(), std::mem::size_of_val(&*b));
 }
 
 pub fn run_case(scn: &J) {
     ev!("\"ev\":\"case_start\",\"case\":{},\"prop\":{},\"ety\":\"plain\",\"rec\":false", crate::events::jstr(scn["case"].as_str().unwrap_or("")), crate::events::jstr(scn["prop"].as_str().unwrap_or("")));
     crate::events::flush();
     let op = scn["d"]["op"].as_str().unwrap().to_string();
-    let h = std::thread::Builder::new().stack_size(256 * 1024).spawn(move || build(op)).expect("HARNESS: spawn");
+    let shape = scn["d"]["shape"].as_str().unwrap().to_string();
+    let h = std::thread::Builder::new()
+        .stack_size(256 * 1024)
+        .spawn(move || match shape.as_str() {
+            "1m_u64" => build::<u64, U1048576>(&op, &shape),
+            "256x16k" => build::<Big16k, U256>(&op, &shape),
+            "64x16k" => build::<Big16k, U64>(&op, &shape),
+            "32x16k" => build::<Big16k, U32>(&op, &shape),
+            _ => panic!("HARNESS: big shape {}", shape),
+        })
+        .expect("HARNESS: spawn");
     let ok = h.join().is_ok();
     ev!("\"ev\":\"big_done\",\"ok\":{}", ok);
     ev!("\"ev\":\"case_end\"");
